@@ -75,6 +75,39 @@ def run (ctx : Algo.Ctx) (op : String) (args impl : List String) : Outcome :=
         (if rs.any (fun x => x.1.rev == 1) then ["reload"] else []) ++
         (if (rs.map (·.1.sort)).eraseDups.length > 1 then ["sort-toggle"] else []) ++
         (if rs.any (fun x => x.2.contains 9) then ["tab-query"] else []) }
+  | "conv", [exact, sort, tac, nth, q, excluded, lines, _setup] =>
+    -- the interactive session at quiescence against a fresh filter of the loaded input
+    let cfg : Cfg := { U := ctx.unicode, sch := schemeDefault, norm := ctx.norm }
+    let nthR : Option (List Tokenizer.Range) := if nth == "-" then none else Tokenizer.splitNth (nth.toList.map (·.toNat))
+    let fo : Fzf.Filter.Opts := {
+      cfg, criteria := Fzf.Filter.schemeCriteria "default", fuzzy := exact != "1", v2 := true, extended := true,
+      caseMode := .smart, normalize := true, sort := sort == "1", tac := tac == "1", nth := nthR, withNth := none,
+      delim := .awk, tail := 0, headerLines := 0, isSpace := Tok.isSpace }
+    let ls := parseStrList lines
+    let query := parseNatList q
+    let ex := parseNatList excluded
+    let pat := Fzf.Pattern.buildPattern cfg fo.fuzzy true true .smart true true true (Utf8.toRunes query)
+    let items := Fzf.Filter.buildItems fo ls
+    let all : List Nat :=
+      if pat.isEmpty then (if fo.tac then items.reverse else items).map (·.index)
+      else ((Fzf.Filter.runIdx fo Generated.slab16Size (Utf8.toRunes query) ls).getD []).map (·.1)
+    let idx := all.filter fun i => !ex.contains i
+    let model := s!"{idx.length} {ls.length} {showNatList idx} {if sort == "1" then 1 else 0}"
+    let implS := " ".intercalate impl
+    { model,
+      spec := if implS == model then specOk else
+        match impl with
+        | [mc, tc, ix, so] =>
+          if so != (if sort == "1" then "1" else "0") then specFail "[C08] the sort flag reported differs from the toggles applied"
+          else if tc != toString ls.length then specFail s!"[C08] at quiescence {tc} items are loaded, the input has {ls.length}"
+          else if mc != toString idx.length ∨ mc != toString (parseNatList ix).length then
+            specFail s!"[C08] at quiescence the match count ({mc}) is not that of a fresh filter ({idx.length}) / of the list shown"
+          else if (parseNatList ix).mergeSort (· ≤ ·) != idx.mergeSort (· ≤ ·) then
+            specFail "[C08] at quiescence the match list holds other lines than a fresh filter of the current query"
+          else specFail "[C08] at quiescence the match list is ordered differently from a fresh filter of the current query"
+        | _ => specFail "[C08] unparsable state",
+      tags := ["conv", "nt"] ++ (if ex.isEmpty then [] else ["exclude"]) ++ (if nth != "-" then ["nth"] else []) ++
+        (if ls.length > 100 then ["multichunk"] else []) ++ (if query.isEmpty then ["empty-query"] else []) }
   | "conc", [lines, _qs, sort, tac, _yield] =>
     let ls := parseStrList lines
     let recs := if impl == ["_"] then [] else ((" ".intercalate impl).splitOn ";").map (·.splitOn "~")
